@@ -65,7 +65,7 @@ func verifHasOpt[T dns.EDNS0](o *dns.OPT) bool {
 // response fits the transport's limit, is truncated safely, echoes OPT correctly and
 // carries padding / keep-alive only where allowed.
 //
-//verif:harness name=H08b-normalize tier=quick bounds="7 transports; request OPT absent or present with symbolic UDP size and DO and any subset of {padding, keep-alive, NSID}; configured UDP maximum symbolic; handler response with 0..3 TXT answers of 10/200/255 bytes, 0..1 authority record, OPT absent or present with symbolic flag bits and EDE/NSID options; math/rand.Intn explored at the extremes of its range" reach=truncated,not-truncated,padded,keepalive maxpaths=400000
+//verif:harness name=H08b-normalize tier=quick bounds="7 transports; request OPT absent or present with symbolic UDP size and symbolic extended-rcode / version / flag bits and any subset of {padding, keep-alive, NSID}; configured UDP maximum symbolic; handler response with 0..3 TXT answers of 10/200/255 bytes, 0..1 authority record, OPT absent or present with symbolic flag bits and EDE/NSID options; math/rand.Intn explored at the extremes of its range" reach=truncated,not-truncated,padded,keepalive maxpaths=400000
 //verif:assume the handler's own OPT carries only EDE/NSID options (what the resolver pipeline can produce); Pack output length equals miekg's Len (library contract)
 func VerifC08Normalize() { verifC08Normalize(3) }
 
@@ -85,9 +85,11 @@ func verifC08Normalize(maxAns int) {
 	reqPad, reqKA, reqNSID := false, false, false
 	if hasOpt {
 		reqSize = nondetU16()
-		reqDO = verifChoice(2) == 1
-		req.SetEdns0(reqSize, reqDO)
+		req.SetEdns0(reqSize, false)
 		o := req.IsEdns0()
+		// extended rcode, version and flag bits of the client's OPT are arbitrary
+		o.Hdr.Ttl = nondetU32()
+		reqDO = o.Do()
 		if verifChoice(2) == 1 {
 			reqPad = true
 			o.Option = append(o.Option, &dns.EDNS0_PADDING{Padding: make([]byte, 3)})
@@ -164,6 +166,7 @@ func verifC08Normalize(maxAns int) {
 		if o := resp.IsEdns0(); o != nil {
 			verifAssert("opt-echoes-client-udp-size", o.UDPSize() == reqSize)
 			verifAssert("opt-version-zero", o.Version() == 0)
+			verifAssert("opt-extended-rcode-not-copied-from-the-query", respHadOpt || o.Hdr.Ttl>>24 == 0)
 			verifAssert("do-only-if-requested", !o.Do() || reqDO || respHadOpt)
 		}
 	} else {
